@@ -9,6 +9,7 @@ mod prog;
 mod props;
 mod pt;
 mod sched;
+mod stats;
 
 use common::Tier;
 
@@ -41,7 +42,12 @@ fn main() {
         let p: prog::Prog = serde_json::from_str(&std::fs::read_to_string(&args[1]).unwrap()).unwrap();
         p.validate().unwrap();
         let t0 = std::time::Instant::now();
-        let r = osc::compare(&std::sync::Arc::new(p), &osc::OscCaps { shuttle_executions: 2_000_000, max_failing: 100_000, model_states: 2_000_000 });
+        let opts = if std::env::var("VERIF_KNOWN_OPTS").is_ok() {
+            interp::Opts { sync_endpoint_drops: true, sync_avail: true, sync_barrier: true, sync_acq_drop: true, ..Default::default() }
+        } else {
+            Default::default()
+        };
+        let r = osc::compare_opts(&std::sync::Arc::new(p), &osc::OscCaps { shuttle_executions: 2_000_000, max_failing: 100_000, model_states: 2_000_000 }, opts);
         println!(
             "judged={} ({}) shuttle: {} executions, {} outcomes; model: must {} / may {} outcomes, {} states; in {:?}",
             r.judged, r.too_large_reason, r.shuttle_executions, r.shuttle_outcomes, r.must_outcomes, r.may_outcomes, r.model_states, t0.elapsed()
